@@ -16,6 +16,7 @@ from dsim.canon import Canon
 
 ID = "C15"
 LEVEL = "fault_enumeration"
+GC_CONTROL = True
 RULE = ("one case = a twin run: 10-40 public-API calls on two environments A and B (the C14 call catalogue, valid "
         "scripts on a long-lived SmtLibParser, SmtLibScript queries, a tracking solver object) with 1-5 failing calls "
         "made on A only: ill-typed construction, ill-typed substitution at a chosen depth, unsupported operator (custom "
@@ -46,7 +47,7 @@ TIERS = {
 
 FAULT_KINDS = ["illtyped_construct", "illtyped_subst", "unsupported", "undefined_symbol", "bad_smtlib", "bad_hr",
                "unsupported_command", "redefine_symbol", "stream_eio", "solver_convert", "solver_unknown",
-               "script_strict", "parse_declares"]
+               "script_strict", "parse_declares", "bad_interpretation", "arith_error_subst", "sl_error"]
 SERVICES = ["simplify", "substitute", "free_vars", "atoms", "theory", "types", "size", "serialize", "to_smtlib",
             "nnf", "cnf", "aig", "prenex", "is_qf", "logic", "model_value"]
 
@@ -221,6 +222,13 @@ def gen_plan(tape, cfg):
             elif kind in ("solver_convert", "solver_unknown"):
                 o["q"] = tape.choice(["is_sat", "is_valid", "is_unsat"], "solver.q")
                 o["f"] = bp.gen_term(tape, bp.BOOL, 2, sctx)
+            elif kind == "bad_interpretation":
+                o["fun"] = tape.choice(["f", "g", "P"], "badinterp.fun")
+                o["nformals"] = tape.choice([0, 3], "badinterp.n")
+            elif kind == "sl_error":
+                o["cmd"] = tape.choice(["declare-fun", "assert", "push", "check-sat"], "sl_error.cmd")
+                o["f"] = bp.gen_term(tape, bp.BOOL, 2, sctx)
+                o["newsym"] = "nz%d" % tape.draw(3, "sl_error.sym")
             ops.append(o)
             if o["kind"] in ("illtyped_construct", "illtyped_subst", "unsupported", "redefine_symbol",
                              "undefined_symbol", "bad_hr") and tape.chance(2, 3, "retry?"):
@@ -229,7 +237,7 @@ def gen_plan(tape, cfg):
         if pending_retry and tape.chance(1, 3, "retry.now"):
             ops.append(pending_retry.pop(0))
             continue
-        k = tape.weighted([(8, "call"), (2, "parse"), (3, "solver"), (1, "script")], "op.kind")
+        k = tape.weighted([(8, "call"), (2, "parse"), (3, "solver"), (1, "script"), (3, "sl")], "op.kind")
         if k == "call":
             spec = calls.gen_call(tape, len(pool), lambda i: pool[i], symbols, richgen, ctx)
             spec["op"] = "call"
@@ -247,6 +255,16 @@ def gen_plan(tape, cfg):
         elif k == "script":
             ops.append({"op": "script", "what": tape.choice(["add_assert", "add_push", "add_pop", "last"], "script.what"),
                         "i": tape.draw(len(pool), "script.formula")})
+        elif k == "sl":
+            sk = tape.weighted([(4, "assert"), (2, "push"), (2, "pop"), (3, "solve"), (2, "is_sat"), (2, "get_model")], "slop")
+            o = {"op": "sl", "sop": sk}
+            if sk in ("assert", "is_sat"):
+                o["f"] = bp.gen_term(tape, bp.BOOL, 2, sctx)
+                if tape.chance(1, 3, "sl.newsym"):
+                    o["f"] = ["and", o["f"], ["sym", "nz%d" % tape.draw(3, "sl.sym"), bp.BOOL]]
+            if sk in ("push", "pop"):
+                o["n"] = tape.rint(1, 2, "levels")
+            ops.append(o)
         else:
             sk = tape.weighted([(4, "assert"), (2, "push"), (2, "pop"), (2, "solve"), (2, "is_sat"), (2, "read")], "sop")
             o = {"op": "solver", "sop": sk}
@@ -284,8 +302,9 @@ def describe(plan):
             out.append("A only (must fail): %s %s" % (o["kind"], d))
         elif o["op"] == "parse":
             out.append("A,B: parser.get_script(%r)" % o["text"][:100])
-        elif o["op"] == "solver":
-            out.append("A,B: solver.%s %s" % (o["sop"], bp.pretty(o["f"]) if "f" in o else o.get("n", "")))
+        elif o["op"] in ("solver", "sl"):
+            out.append("A,B: %s.%s %s" % ("solver" if o["op"] == "solver" else "smtlib_solver", o["sop"],
+                                          bp.pretty(o["f"]) if "f" in o else o.get("n", "")))
         else:
             out.append("A,B: script.%s pool[%d]" % (o["what"], o["i"]))
     return out
@@ -323,6 +342,21 @@ class _Side(object):
         self.solver = BruteSolver(self.env, QF_BV, table=Table(doms), tape=tape, policy="first")
         self.depth = 0
         self.sdepth = 0
+        # a real SmtLibSolver over simulated pipes to the reference solver (created lazily)
+        self.sl = None
+        self.slproc = None
+        self.sl_depth = 0
+        self.sl_live = [[]]      # blueprints per level (user-visible history)
+        self.sl_sat = False
+
+    def smtlib(self, world):
+        if self.sl is None:
+            from pysmt.logics import QF_BV
+            name = "ref_" + self.name
+            self.env.factory.add_generic_solver(name, ["ref", "twin"], [QF_BV])
+            self.sl = self.env.factory.Solver(name=name, logic=QF_BV)
+            self.slproc = world.procs[-1]
+        return self.sl
 
 
 def execute(plan, tape):
@@ -333,7 +367,12 @@ def execute(plan, tape):
     symbols = plan["symbols"]
     user = set(symbols) | {"k%s%d" % (a, b) for a in "bir" for b in range(3)} | {"dfn", "pa", "pb", "lv", "zz_new", "zz_new2"}
     pool = plan["pool"]
+    from dsim.kernel import Kernel, SimDeadlock
+    from dsim.proc import World, Seams
     penv.reset_env()
+    kernel = Kernel(tape, max_steps=200000, max_time=1e7)
+    world = World(kernel, tape)
+    world.profiles["twin"] = {"model_policy": "first", "short_reads": True}
     A = _Side("A", symbols, tape)
     B = _Side("B", symbols, tape)
     probes = {}
@@ -391,128 +430,209 @@ def execute(plan, tape):
     def nonleaf(t):
         return {json.dumps(x) for x in richgen.subterms(t) if x[0] not in bp.LEAVES}
 
-    for step, o in enumerate(plan["ops"]):
-        kind = o["op"]
-        if kind == "call":
-            i = o["i"] % len(pool)
-            term = pool[i]
-            spec = o
+    def sl_do(side, o):
+        """one operation on the side's SmtLibSolver; returns a comparable observation"""
+        s_ = side.smtlib(world)
+        k = o["sop"]
+        if k == "assert":
+            s_.add_assertion(bp.build(o["f"], side.env))
+            side.sl_live[-1].append(o["f"])
+            side.sl_sat = False
+            return ["ok"]
+        if k == "push":
+            s_.push(o["n"])
+            side.sl_live += [[] for _ in range(o["n"])]
+            side.sl_sat = False
+            return ["ok"]
+        if k == "pop":
+            n = min(o["n"], len(side.sl_live) - 1)
+            if n:
+                s_.pop(n)
+                del side.sl_live[-n:]
+                side.sl_sat = False
+            return ["ok"]
+        if k == "solve":
+            r = s_.solve()
+            side.sl_sat = bool(r)
+            return ["verdict", r]
+        if k == "is_sat":
+            r = s_.is_sat(bp.build(o["f"], side.env))
+            side.sl_sat = False
+            return ["verdict", r]
+        if k == "get_model":
+            if not side.sl_sat:
+                return ["skipped"]
+            m = s_.get_model()
+            live = [f for lv in side.sl_live for f in lv]
+            syms = {}
+            for f in live:
+                bp.symbols_of(f, syms)
+            a = {n: m.get_value(side.env.formula_manager.get_symbol(n)).constant_value() for n in syms}
+            return ["model-satisfies", all(bp.evaluate(f, a) for f in live)]
+        return ["?"]
 
-            def do(side):
-                f = bp.build(term, side.env)
-                return calls.perform(side.env, spec, f, term, user)
-            ra, rb = on(A, lambda: do(A)), on(B, lambda: do(B))
-            c = same(o["call"], ra, rb, term, "pool[%d]=%s" % (i, bp.pretty(term)[:120]))
-            if state["failed_subs"] and any(nonleaf(term) & s for s in state["failed_subs"]):
-                state["nontrivial"] = True
-                probe("probe_shares_subdag_with_failed_call")
-            trace.append(("call", o["call"], i, str(c)[:40]))
-        elif kind == "parse":
-            def do(side):
-                sc = side.parser.get_script(StringIO(o["text"]))
-                return [sc.get_last_formula(mgr=side.env.formula_manager), len(sc.commands)]
-            ra, rb = on(A, lambda: do(A)), on(B, lambda: do(B))
-            same("parse", ra, rb, None, repr(o["text"][:80]))
-            if "parser" in state["obj_failed"]:
-                state["nontrivial"] = True
-                probe("parser_reused_after_failed_parse")
-            trace.append(("parse", ra[0]))
-        elif kind == "script":
-            i = o["i"] % len(pool)
+    def sl_check_stream(side, where):
+        if side.slproc is not None and side.slproc.solver.illegal:
+            no, why = side.slproc.solver.illegal[0]
+            raise Violation("C15:smtlib:illegal-stream-after-failure",
+                            "%s: twin %s sent an illegal command #%d after failing calls %s: %s" %
+                            (where, side.name, no, [f for f in faults], why))
 
-            def do(side):
-                if o["what"] == "add_assert":
-                    side.script.add(smtcmd.ASSERT, [bp.build(pool[i], side.env)])
-                    return len(side.script)
-                if o["what"] == "add_push":
-                    side.script.add(smtcmd.PUSH, [1])
-                    side.depth += 1
-                    return len(side.script)
-                if o["what"] == "add_pop":
-                    if side.depth > 0:
-                        side.script.add(smtcmd.POP, [1])
-                        side.depth -= 1
-                    return len(side.script)
-                return side.script.get_last_formula(mgr=side.env.formula_manager)
-            ra, rb = on(A, lambda: do(A)), on(B, lambda: do(B))
-            same("script", ra, rb, None, o["what"])
-            if "script" in state["obj_failed"]:
+    def run():
+        for step, o in enumerate(plan["ops"]):
+            kind = o["op"]
+            if kind == "sl":
+                ra, rb = on(A, lambda: sl_do(A, o)), on(B, lambda: sl_do(B, o))
+                sl_check_stream(B, "smtlib_solver.%s" % o["sop"])
+                sl_check_stream(A, "smtlib_solver.%s" % o["sop"])
+                same("smtlib_solver." + o["sop"], ra, rb, None, bp.pretty(o["f"]) if "f" in o else "")
+                if "sl" in state["obj_failed"]:
+                    state["nontrivial"] = True
+                    probe("smtlib_solver_used_after_failed_call")
+                trace.append(("sl", o["sop"], ra[0]))
+                continue
+            if kind == "call":
+                i = o["i"] % len(pool)
+                term = pool[i]
+                spec = o
+
+                def do(side):
+                    f = bp.build(term, side.env)
+                    return calls.perform(side.env, spec, f, term, user)
+                ra, rb = on(A, lambda: do(A)), on(B, lambda: do(B))
+                c = same(o["call"], ra, rb, term, "pool[%d]=%s" % (i, bp.pretty(term)[:120]))
+                if state["failed_subs"] and any(nonleaf(term) & s for s in state["failed_subs"]):
+                    state["nontrivial"] = True
+                    probe("probe_shares_subdag_with_failed_call")
+                trace.append(("call", o["call"], i, str(c)[:40]))
+            elif kind == "parse":
+                def do(side):
+                    sc = side.parser.get_script(StringIO(o["text"]))
+                    return [sc.get_last_formula(mgr=side.env.formula_manager), len(sc.commands)]
+                ra, rb = on(A, lambda: do(A)), on(B, lambda: do(B))
+                same("parse", ra, rb, None, repr(o["text"][:80]))
+                if "parser" in state["obj_failed"]:
+                    state["nontrivial"] = True
+                    probe("parser_reused_after_failed_parse")
+                trace.append(("parse", ra[0]))
+            elif kind == "script":
+                i = o["i"] % len(pool)
+
+                def do(side):
+                    if o["what"] == "add_assert":
+                        side.script.add(smtcmd.ASSERT, [bp.build(pool[i], side.env)])
+                        return len(side.script)
+                    if o["what"] == "add_push":
+                        side.script.add(smtcmd.PUSH, [1])
+                        side.depth += 1
+                        return len(side.script)
+                    if o["what"] == "add_pop":
+                        if side.depth > 0:
+                            side.script.add(smtcmd.POP, [1])
+                            side.depth -= 1
+                        return len(side.script)
+                    return side.script.get_last_formula(mgr=side.env.formula_manager)
+                ra, rb = on(A, lambda: do(A)), on(B, lambda: do(B))
+                same("script", ra, rb, None, o["what"])
+                if "script" in state["obj_failed"]:
+                    state["nontrivial"] = True
+                trace.append(("script", o["what"]))
+            elif kind == "solver":
+                def do(side):
+                    s = side.solver
+                    k = o["sop"]
+                    if k == "assert":
+                        s.add_assertion(bp.build(o["f"], side.env))
+                    elif k == "push":
+                        s.push(o["n"])
+                        side.sdepth += o["n"]
+                    elif k == "pop":
+                        # legality is judged on the user-visible history (identical for both twins)
+                        n = min(o["n"], side.sdepth)
+                        if n:
+                            side.sdepth -= n
+                            s.pop(n)
+                    elif k == "solve":
+                        return ["verdict", s.solve()]
+                    elif k == "is_sat":
+                        return ["verdict", s.is_sat(bp.build(o["f"], side.env))]
+                    return ["state", list(s.assertions), s.b_depth(), list(s.b_live())]
+                ra, rb = on(A, lambda: do(A)), on(B, lambda: do(B))
+                same("solver." + o["sop"], ra, rb, None, bp.pretty(o["f"]) if "f" in o else "")
+                if "solver" in state["obj_failed"]:
+                    state["nontrivial"] = True
+                    probe("solver_used_after_failed_query")
+                trace.append(("solver", o["sop"], ra[0]))
+            elif kind == "both_fault":
+                i = o["i"] % len(pool)
+                term = pool[i]
+                fa, _ = _fault_fn(o, term, symbols, user, A, tape)
+                fb, _ = _fault_fn(o, term, symbols, user, B, tape)
+                ra, rb = on(A, fa), on(B, fb)
+                same("retry." + o["kind"], ra, rb, None, "the failing call made again on both twins")
+                probe("retry_" + o["kind"])
                 state["nontrivial"] = True
-            trace.append(("script", o["what"]))
-        elif kind == "solver":
-            def do(side):
-                s = side.solver
-                k = o["sop"]
-                if k == "assert":
-                    s.add_assertion(bp.build(o["f"], side.env))
-                elif k == "push":
-                    s.push(o["n"])
-                    side.sdepth += o["n"]
-                elif k == "pop":
-                    # legality is judged on the user-visible history (identical for both twins)
-                    n = min(o["n"], side.sdepth)
-                    if n:
-                        side.sdepth -= n
-                        s.pop(n)
-                elif k == "solve":
-                    return ["verdict", s.solve()]
-                elif k == "is_sat":
-                    return ["verdict", s.is_sat(bp.build(o["f"], side.env))]
-                return ["state", list(s.assertions), s.b_depth(), list(s.b_live())]
-            ra, rb = on(A, lambda: do(A)), on(B, lambda: do(B))
-            same("solver." + o["sop"], ra, rb, None, bp.pretty(o["f"]) if "f" in o else "")
-            if "solver" in state["obj_failed"]:
-                state["nontrivial"] = True
-                probe("solver_used_after_failed_query")
-            trace.append(("solver", o["sop"], ra[0]))
-        elif kind == "both_fault":
-            i = o["i"] % len(pool)
-            term = pool[i]
-            fa, _ = _fault_fn(o, term, symbols, user, A, tape)
-            fb, _ = _fault_fn(o, term, symbols, user, B, tape)
-            ra, rb = on(A, fa), on(B, fb)
-            same("retry." + o["kind"], ra, rb, None, "the failing call made again on both twins")
-            probe("retry_" + o["kind"])
-            state["nontrivial"] = True
-            trace.append(("both_fault", o["kind"], ra[0]))
-        elif kind == "fault":
-            fk = o["kind"]
-            i = o["i"] % len(pool)
-            term = pool[i]
-            # the *valid* parts of the composite operation (building the argument terms,
-            # the symbol with its original type) are ordinary successful calls: both twins
-            # make them; only the failing step itself is A's alone
-            for side in (A, B):
-                on(side, lambda side=side: _prepare_fault(o, term, symbols, side))
-            fn, after = _fault_fn(o, term, symbols, user, A, tape)
-            r = on(A, fn)
-            if r[0] == "exc":
-                faults[fk] = faults.get(fk, 0) + 1
-                probe("raised_" + r[1])
-                state["failed_subs"].append(nonleaf(o.get("t", term)))
-                if fk in ("bad_smtlib", "stream_eio", "unsupported_command", "parse_declares") or \
-                        (fk == "undefined_symbol" and o.get("via") == "smtlib"):
-                    state["obj_failed"].add("parser")
-                if fk in ("solver_convert", "solver_unknown"):
-                    state["obj_failed"].add("solver")
-                if fk == "script_strict":
-                    state["obj_failed"].add("script")
-                if fk == "parse_declares":
-                    # known borderline: the symbol declared by the failed script survives
-                    name = o.get("probe", "zz_new")
-                    want_other = (lambda side: side.env.formula_manager.Symbol(
-                        name, bp.to_pysmt_type(bp.REAL, side.env)))
-                    pa, pb = on(A, lambda: want_other(A)), on(B, lambda: want_other(B))
-                    if pa[0] != pb[0]:
-                        raise Violation("C15:failed-parse:declared-symbol-survives",
-                                        "after a script declaring %s failed to parse, Symbol(%r, REAL) %s in A but %s in the twin" %
-                                        (name, name, _short(pa), _short(pb)))
-            else:
-                # not a fault after all: give B the same call so the twins stay equal
-                probe("not_a_fault_" + fk)
-                fnB, _ = _fault_fn(o, term, symbols, user, B, tape)
-                on(B, fnB)
-            trace.append(("fault", fk, r[0], r[1] if r[0] == "exc" else ""))
+                trace.append(("both_fault", o["kind"], ra[0]))
+            elif kind == "fault":
+                fk = o["kind"]
+                i = o["i"] % len(pool)
+                term = pool[i]
+                # the *valid* parts of the composite operation (building the argument terms,
+                # the symbol with its original type) are ordinary successful calls: both twins
+                # make them; only the failing step itself is A's alone
+                for side in (A, B):
+                    on(side, lambda side=side: _prepare_fault(o, term, symbols, side))
+                if fk == "sl_error":
+                    A.smtlib(world)
+                    B.smtlib(world)
+                fn, after = _fault_fn(o, term, symbols, user, A, tape)
+                r = on(A, fn)
+                if fk == "sl_error":
+                    A.slproc.solver.profile.pop("error_at_name", None)
+                    # the failing call may have been executed in part by the peer (a declaration
+                    # accepted before the rejected command): under the strict reference solver that
+                    # leaves sat mode, so neither twin is asked for a model until its next solve()
+                    A.sl_sat = False
+                    B.sl_sat = False
+                if r[0] == "exc":
+                    faults[fk] = faults.get(fk, 0) + 1
+                    probe("raised_" + r[1])
+                    state["failed_subs"].append(nonleaf(o.get("t", term)))
+                    if fk in ("bad_smtlib", "stream_eio", "unsupported_command", "parse_declares") or \
+                            (fk == "undefined_symbol" and o.get("via") == "smtlib"):
+                        state["obj_failed"].add("parser")
+                    if fk in ("solver_convert", "solver_unknown"):
+                        state["obj_failed"].add("solver")
+                    if fk == "sl_error":
+                        state["obj_failed"].add("sl")
+                    if fk == "script_strict":
+                        state["obj_failed"].add("script")
+                    if fk == "parse_declares":
+                        # known borderline: the symbol declared by the failed script survives
+                        name = o.get("probe", "zz_new")
+                        want_other = (lambda side: side.env.formula_manager.Symbol(
+                            name, bp.to_pysmt_type(bp.REAL, side.env)))
+                        pa, pb = on(A, lambda: want_other(A)), on(B, lambda: want_other(B))
+                        if pa[0] != pb[0]:
+                            raise Violation("C15:failed-parse:declared-symbol-survives",
+                                            "after a script declaring %s failed to parse, Symbol(%r, REAL) %s in A but %s in the twin" %
+                                            (name, name, _short(pa), _short(pb)))
+                else:
+                    # not a fault after all: give B the same call so the twins stay equal
+                    probe("not_a_fault_" + fk)
+                    fnB, _ = _fault_fn(o, term, symbols, user, B, tape)
+                    on(B, fnB)
+                    if fk == "sl_error":
+                        B.slproc.solver.profile.pop("error_at_name", None)
+                trace.append(("fault", fk, r[0], r[1] if r[0] == "exc" else ""))
+
+    with Seams(world):
+        try:
+            kernel.run_main(run)
+        except SimDeadlock as d:
+            raise Violation("C15:smtlib:blocks-after-failure",
+                            "a call on the text-interface solver blocked (%s %s) after failing calls %s" %
+                            (d.reason, d.detail[:120], [f for f in faults]))
     return {"digest": digest_of(trace), "nontrivial": state["nontrivial"] and bool(faults), "probes": probes,
             "faults": faults, "sim_time": 0.0, "steps": len(plan["ops"]),
             "sample": {"ops": describe(plan)[len(pool):][:40], "pool": describe(plan)[:len(pool)]}}
@@ -545,8 +665,26 @@ def _prepare_fault(o, term, symbols, side):
         mgr.Symbol(o["name"], bp.to_pysmt_type(symbols[o["name"]], env))
     if o["kind"] == "illtyped_construct":
         mgr.Symbol("f", bp.to_pysmt_type(["Fun", [bp.INT], bp.INT], env))
-    if o["kind"] in ("solver_convert",):
-        mgr.Symbol("u", bp.to_pysmt_type(bp.REAL, env))
+    if o["kind"] in ("solver_convert", "arith_error_subst"):
+        u = mgr.Symbol("u", bp.to_pysmt_type(bp.REAL, env))
+        if o["kind"] == "arith_error_subst":
+            mgr.And(bp.build(term, env), mgr.LT(mgr.Pow(u, mgr.Real(-1)), mgr.Real(3)))
+            mgr.Real(0)
+    if o["kind"] == "bad_interpretation":
+        fsorts = {"f": ["Fun", [bp.INT], bp.INT], "g": ["Fun", [bp.INT, bp.INT], bp.BOOL],
+                  "P": ["Fun", [bp.INT, bp.BOOL], bp.BOOL]}
+        name = o["fun"]
+        fs = mgr.Symbol(name, bp.to_pysmt_type(fsorts[name], env))
+        x, y = mgr.Symbol("x", bp.to_pysmt_type(bp.INT, env)), mgr.Symbol("y", bp.to_pysmt_type(bp.INT, env))
+        pb = mgr.Symbol("p", bp.to_pysmt_type(bp.BOOL, env))
+        app = {"f": lambda: mgr.Equals(mgr.Function(fs, [x]), y), "g": lambda: mgr.Function(fs, [x, y]),
+               "P": lambda: mgr.Function(fs, [x, pb])}[name]()
+        mgr.And(bp.build(term, env), app)
+        for j in range(o["nformals"]):
+            mgr.Symbol("fp%d" % j, bp.to_pysmt_type(bp.INT, env))
+        mgr.Int(1)
+    if o["kind"] == "sl_error":
+        bp.build(["and", o["f"], ["sym", o["newsym"], bp.BOOL]], env)
 
 
 def _fault_fn(o, term, symbols, user, side, tape):
@@ -640,6 +778,42 @@ def _fault_fn(o, term, symbols, user, side, tape):
                 # make it fail for the other documented reason: no single check-sat
                 return sc.get_strict_formula(mgr)
             return sc.get_strict_formula(mgr)
+        return fn, None
+    if fk == "bad_interpretation":
+        def fn():
+            from pysmt.substituter import FunctionInterpretation
+            fsorts = {"f": ["Fun", [bp.INT], bp.INT], "g": ["Fun", [bp.INT, bp.INT], bp.BOOL],
+                      "P": ["Fun", [bp.INT, bp.BOOL], bp.BOOL]}
+            name = o["fun"]
+            fs = mgr.Symbol(name, bp.to_pysmt_type(fsorts[name], env))
+            x, y = mgr.Symbol("x", bp.to_pysmt_type(bp.INT, env)), mgr.Symbol("y", bp.to_pysmt_type(bp.INT, env))
+            pb = mgr.Symbol("p", bp.to_pysmt_type(bp.BOOL, env))
+            app = {"f": lambda: mgr.Equals(mgr.Function(fs, [x]), y), "g": lambda: mgr.Function(fs, [x, y]),
+                   "P": lambda: mgr.Function(fs, [x, pb])}[name]()
+            formula = mgr.And(bp.build(term, env), app)
+            formals = [mgr.Symbol("fp%d" % j, bp.to_pysmt_type(bp.INT, env)) for j in range(o["nformals"])]
+            body = mgr.Int(1) if name == "f" else mgr.TRUE()
+            interp = FunctionInterpretation(formals, body)      # wrong number of formal parameters
+            return formula.substitute(interpretations={fs: interp})
+        return fn, None
+    if fk == "arith_error_subst":
+        def fn():
+            u = mgr.Symbol("u", bp.to_pysmt_type(bp.REAL, env))
+            formula = mgr.And(bp.build(term, env), mgr.LT(mgr.Pow(u, mgr.Real(-1)), mgr.Real(3)))
+            return formula.substitute({u: mgr.Real(0)})         # 0 ** -1 while rebuilding
+        return fn, None
+    if fk == "sl_error":
+        def fn():
+            s_ = side.sl
+            ref = side.slproc.solver
+            cmd = o["cmd"]
+            ref.profile["error_at_name"] = [cmd, ref.counts.get(cmd, 0) + 1]
+            f = bp.build(["and", o["f"], ["sym", o["newsym"], bp.BOOL]], env)
+            if cmd == "push":
+                return s_.push(1)
+            if cmd == "check-sat":
+                return s_.solve()
+            return s_.add_assertion(f)
         return fn, None
     if fk == "solver_convert":
         def fn():
